@@ -116,6 +116,58 @@ theorem generated_valid (cfg : List (Nat × PVal)) (uris : List (Option Bytes)) 
   rw [hdt] at hp
   exact ⟨d, hd, hdt, hp, by simp [printable, hp]⟩
 
+/-- Blocks with no content are omitted: in the generated tree no node that is printed as `keyword { … }` (http_get,
+http_post, stage, process_inject, dns_beacon, http_beacon, client, server, output, metadata, id, transform_x86/x64,
+execute, beacon_gate), at any depth, has an empty children list. -/
+theorem empty_blocks_absent (cfg : List (Nat × PVal)) (uris : List (Option Bytes)) (h : WellFormedCfg cfg uris = true)
+    (t : PTree) (ht : fromBeaconConfig cfg uris = .ok t) : noEmptyBlocks t.kids = true := by
+  simp only [WellFormedCfg, Bool.and_eq_true] at h
+  unfold fromBeaconConfig at ht
+  cases hr : runSettings uris St.init cfg with
+  | error e => simp [hr] at ht
+  | ok st =>
+    simp only [hr, Except.ok.injEq] at ht
+    subst ht
+    exact finalize_ne (runSettings_ne uris cfg St.init st h.2 (fun _ => rfl) hr)
+
+/-! ### the generated profile is faithful -/
+
+/-- For every well-formed configuration the dictionary of the re-parsed profile (`specDict` of the generated tree
+without the `# dns_resolver` comment) is, entry for entry and in order, the dictionary the property promises
+(`expectedDict`): sleeptime, jitter, spawnto, useragent, frame headers, URIs, verbs, submit URI, static headers and
+parameters, the steps of every BUILD group of the http-get / http-post client and of the http-get server output
+(arguments byte-exact: `.tuple kw [.ok bytes]` by C12's `literal_roundtrip`), process-inject, DNS, stage and BeaconGate
+options; guarded settings with a zero / empty value are absent. -/
+theorem generated_faithful (cfg : List (Nat × PVal)) (uris : List (Option Bytes)) (h : WellFormedCfg cfg uris = true)
+    (t : PTree) (ht : fromBeaconConfig cfg uris = .ok t) :
+    specDict t.reparsed = expectedDict cfg uris := by
+  simp only [WellFormedCfg, Bool.and_eq_true, decide_eq_true_eq] at h
+  unfold fromBeaconConfig at ht
+  cases hr : runSettings uris St.init cfg with
+  | error e => simp [hr] at ht
+  | ok st =>
+    simp only [hr, Except.ok.injEq] at ht
+    subst ht
+    have := runSettings_finv uris cfg [] St.init st (finv_init uris) h.2 (by simpa using h.1) hr
+    exact finalize_spec (by simpa using this)
+
+/-- the same for a configuration given as an arbitrary TLV sequence (repeated settings allowed): dict semantics first -/
+theorem generated_faithful_tlv (tlvs : List (Nat × PVal)) (uris : List (Option Bytes))
+    (h : (settingsByIndex tlvs).all (wfSetting uris) = true) (t : PTree)
+    (ht : fromBeaconConfig (settingsByIndex tlvs) uris = .ok t) :
+    specDict t.reparsed = expectedDict (settingsByIndex tlvs) uris :=
+  generated_faithful _ uris (by simp [WellFormedCfg, h, settingsByIndex_keys_nodup]) t ht
+
+/-- plain text options state the configured text: the literal between the quotes decodes (profile escape rules,
+`string_token_to_bytes`) to the text itself -/
+theorem text_literal_decodes (s : Bytes) (h : wfText s = true) :
+    C12.stringTokenToBytes (C12.valueToStringStr s) = .ok s :=
+  str_roundtrip s (wfText_noBackslash s h)
+
+/-- byte-valued options (frame headers, transform arguments, static headers) decode to the exact bytes -/
+theorem bytes_literal_decodes (v : Bytes) : C12.stringTokenToBytes (C12.valueToString v) = .ok v :=
+  C12.roundtrip v
+
 /-! ### non-vacuity -/
 
 /-- sleeptime, a user agent with a quote, an http-get client program with binary arguments, an execute list, a gate list -/
@@ -129,5 +181,7 @@ def exampleCfg : List (Nat × PVal) := [
 
 example : WellFormedCfg exampleCfg [some [47, 120]] = true := by decide +kernel
 example : (fromBeaconConfig exampleCfg [some [47, 120]]).toOption.map printable = some true := by decide +kernel
+example : (fromBeaconConfig exampleCfg [some [47, 120]]).toOption.map (fun t => (specDict t.reparsed).length) = some 14 := by
+  decide +kernel
 
 end C13
